@@ -232,7 +232,7 @@ Proof.
     { cbn [m2 m_scopes]. simpl. congruence. }
     { cbn [m2 m_loop_base m_loops]. congruence. }
     set (F := mkF (Z.of_nat (S (length (m_scopes m))) - sd code start) start pc2 (m_loops m2) (m_ret m2)) in *.
-    eapply post_bind; [apply (Hcl m2 F W2 FS FI)|]. intros m3 (W3 & L3 & FI3 & (re3 & rp3 & Hr3)).
+    eapply post_bind; [apply (Hcl m2 F W2 (or_introl FS) FI)|]. intros m3 (W3 & L3 & FI3 & (re3 & rp3 & Hr3)).
     rewrite Hr3.
     pose proof (fi_ret code F m3 FI3) as Hret3. cbn [F f_ret m2 m_ret] in Hret3. rewrite Hret3.
     assert (Hre3 : expr_ok re3 = true) by (apply (code_stmt_ok code Hcode _ _ Hr3)).
